@@ -1,8 +1,10 @@
 import Xp.Base.JsonIO
 import Xp.Model.C19
+import Xp.Gen.C19
 /-
-Driver for C19: parses one scenario (a schedule of user operations, delete
-requests, GC steps and single API calls of reconciles under fault outcomes),
+Driver for C19: parses one scenario (a schedule of user operations, other writers'
+edits, delete requests, GC steps and single API calls of reconciles under fault
+outcomes, error classes and informer-cache lag),
 runs the model and prints the same canonical observation the Go harness prints
 for the real code.
 -/
@@ -85,6 +87,7 @@ def Report.str : Report → String
   | .ignored => "ignored"
   | .call req reply fin =>
     s!"{req.str} -> {replyStr reply}" ++ (match fin with | some r => ";done:" ++ r.str | none => "")
+  | .touched found => if found then "ok" else "notFound"
 
 /-! ### model-side evaluation of the proved statements on the run -/
 
@@ -176,19 +179,86 @@ structure RunSt where
   ok : Bool
   why : String
   trk : List Tracked := []
+  /-- the informer cache: the Usage collection after every scenario event (one entry per action,
+  oldest first; entry 0 = the empty cluster) and the position the cache has reached -/
+  hist : Array (List Usage) := #[[]]
+  cpos : Nat := 0
+  /-- some read so far was answered by a lagging cache: the statements that assume `listFresh`
+  (marker clauses, removed_only_with_last) are no longer evaluated on this run -/
+  lagged : Bool := false
+  /-- the composer re-applied a Usage through a version `RespectOwnerRefs` does not recognise: the
+  ownership statements (which exclude `.xaRaw`) are no longer evaluated on this run -/
+  raw : Bool := false
+
+/-- the entry a cached read lagging `v` events behind is answered from: `v` entries before the
+latest, but never older than what an earlier read was served -/
+def RunSt.viewIdx (st : RunSt) (v : Nat) : Nat :=
+  let last := st.hist.size - 1
+  max st.cpos (if v = 0 then last else last - v)
+
+def RunSt.lagging (st : RunSt) (v : Nat) : Bool := st.viewIdx v != st.hist.size - 1
+
+def RunSt.viewAt (st : RunSt) (v : Nat) : List Usage := st.hist.getD (st.viewIdx v) []
+
+/-- error class of an injected failure as the model names it -/
+def errOf : String → Err
+  | "notFound" => .notFound
+  | "conflict" => .conflict
+  | "alreadyExists" => .alreadyExists
+  | "invalid" => .invalid
+  | _ => .other
 
 def RunSt.act (st : RunSt) (a : Action) : RunSt × String :=
   let (sys', rep) := st.sys.exec a
   let fail (w : String) (st : RunSt) : RunSt := if st.ok then { st with ok := false, why := w } else st
   let (trk', ownOk) := ownerStep st.trk a rep sys'
   let st' : RunSt := { st with sys := sys', trk := trk' }
-  let st' := if ownOk then st' else fail "C19:model-usage-not-owned-by-current-user" st'
-  let st' := if ownedOk sys'.store then st' else fail "C19:model-ready-not-owned" st'
-  let st' := if removalOk st.sys a sys' then st' else fail "C19:model-marker-removed-with-other-usage" st'
+  let st' := if ownOk || st.raw then st' else fail "C19:model-usage-not-owned-by-current-user" st'
+  let st' := if ownedOk sys'.store || st.raw then st' else fail "C19:model-ready-not-owned" st'
+  let st' := if removalOk st.sys a sys' || st.lagged then st' else fail "C19:model-marker-removed-with-other-usage" st'
   let st' := if hookOk st.sys a rep then st' else fail "C19:model-webhook-verdict" st'
-  let st' := if sys'.maxc ≤ 1 && !(markerOk sys'.store) then fail "C19:model-ready-usage-unmarked" st' else st'
-  let st' := if sys'.maxc ≤ 1 && !(beforeReadyOk st.sys sys') then fail "C19:model-ready-before-marker" st' else st'
-  (st', rep.str)
+  let st' := if sys'.maxc ≤ 1 && !st.lagged && !(markerOk sys'.store) then fail "C19:model-ready-usage-unmarked" st' else st'
+  let st' := if sys'.maxc ≤ 1 && !st.lagged && !(beforeReadyOk st.sys sys') then fail "C19:model-ready-before-marker" st' else st'
+  ({ st' with hist := st'.hist.push sys'.store.usages }, rep.str)
+
+/-- the marker statements are proved for the plain world; on a schedule with informer-cache lag
+the model-side verdict covers the world-independent statements only -/
+def RunSt.actW (st : RunSt) (a : Action) : RunSt × String :=
+  let (sys', rep) := st.sys.exec a
+  let fail (w : String) (st : RunSt) : RunSt := if st.ok then { st with ok := false, why := w } else st
+  let drop : String := match a with | .stepW n _ _ => n | _ => ""
+  let trk' := (st.trk.filter fun x => x.held sys').filter fun x => x.1 != drop
+  let lag' : Bool := match a with
+    | .stepW _ _ c => c.count.isSome || c.usage.isSome
+    | .dr _ _ _ _ _ _ stale => stale.isSome
+    | _ => false
+  let raw' : Bool := match a with | .xaRaw _ _ => true | _ => false
+  let st' : RunSt := { st with sys := sys', trk := trk', lagged := st.lagged || lag', raw := st.raw || raw' }
+  let st' := if hookOk st.sys a rep then st' else fail "C19:model-webhook-verdict" st'
+  ({ st' with hist := st'.hist.push sys'.store.usages }, rep.str)
+
+/-- one API call of the reconcile of `n`: outcome `o`, error class `e`, informer cache `v` events behind -/
+def RunSt.stepU (st : RunSt) (n : String) (o : Outcome) (e : String) (v : Nat) : RunSt × String :=
+  match st.sys.thread? n with
+  | none => st.act (.step n o none)
+  | some t =>
+    let cached := match t.request with | .getU _ => true | .listU _ => true | _ => false
+    let idx := st.viewIdx v
+    let lag := cached && o == .ok && st.lagging v
+    let view := st.viewAt v
+    -- the cache moves when it answers a read
+    let st := if cached && o == .ok then { st with cpos := idx } else st
+    if !lag && (e == "" || o != .fail) then st.act (.step n o none)
+    else
+      let c : Call := {
+        count := if lag then (match t.request with
+          | .listU key => some (view.filter (·.indexedBy key)).length
+          | _ => none) else none,
+        usage := if lag then (match t.request with
+          | .getU nm => some (view.find? (fun x => x.name == nm))
+          | _ => none) else none,
+        cls := if o == .fail then errOf e else .other }
+      st.actW (.stepW n o c)
 
 def RunSt.push (p : RunSt × String) : RunSt := { p.1 with steps := p.2 :: p.1.steps }
 
@@ -203,7 +273,7 @@ def RunSt.runU (st : RunSt) (n : String) : RunSt :=
     match fuel with
     | 0 => (st, parts)
     | fuel + 1 =>
-      let (st', r) := st.act (.step n .ok none)
+      let (st', r) := st.stepU n .ok "" 0
       let parts := parts ++ [r]
       match st'.sys.thread? n with
       | some _ => loop fuel st' parts
@@ -224,14 +294,36 @@ def stepOf (st : RunSt) (j : Json) : RunSt :=
     let wo := strs j "wo"
     let lo := (wo.getD 0 "ok") == "ok"
     let po := (wo.getD 1 "ok") == "ok"
-    RunSt.push (st.act (.dr (groupOf (str j "av")) (str j "kind") (str j "name") (str j "policy") lo po none))
+    let (g, k, n) := (groupOf (str j "av"), str j "kind", str j "name")
+    let v := nat j "v"
+    -- the webhook lists (through the cache) iff the stored object carries the label
+    let listed := lo && (match st.sys.store.getR g k n with | some r => r.inUse | none => false)
+    let lag := listed && st.lagging v
+    let stale := if lag then some ((st.viewAt v).filter (·.indexedBy (indexKey g k n))).length else none
+    let st := if listed then { st with cpos := st.viewIdx v } else st
+    if lag then RunSt.push (st.actW (.dr g k n (str j "policy") lo po stale))
+    else RunSt.push (st.act (.dr g k n (str j "policy") lo po none))
   | "gc" =>
     if str j "kind" == "Usage" && (str j "av" == "" || groupOf (str j "av") == "apiextensions.crossplane.io") then
       RunSt.push (st.act (.gcU (str j "name")))
-    else RunSt.push (st.act (.gcR (groupOf (str j "av")) (str j "kind") (str j "name")))
-  | "xa" => RunSt.push (st.act (.xa (str j "name") (str j "ctrl")))
+    else
+      let (g, k, n) := (groupOf (str j "av"), str j "kind", str j "name")
+      -- the garbage collector's delete passes the webhook like any other (fresh list)
+      let listed := match st.sys.store.getR g k n with
+        | some r => r.inUse && r.owners != [] && !(r.owners.any fun o => st.sys.store.alive o.uid)
+        | none => false
+      let st := if listed then { st with cpos := st.viewIdx 0 } else st
+      RunSt.push (st.act (.gcR g k n))
+  | "xa" =>
+    let av := if str j "av" == "" then "apiextensions.crossplane.io/v1beta1" else str j "av"
+    -- does the composer's RespectOwnerRefs option recognise a Usage served in that version? (probed
+    -- from the tree: Xp.Gen.c19ComposerRespects)
+    if Xp.Gen.c19ComposerRespects.any (fun (a, k, b) => a == av && k == "Usage" && b) then
+      RunSt.push (st.act (.xa (str j "name") (str j "ctrl")))
+    else RunSt.push (st.actW (.xaRaw (str j "name") (str j "ctrl")))
+  | "er" => RunSt.push (st.act (.er (groupOf (str j "av")) (str j "kind") (str j "name") (labelsOf j "labels")))
   | "start" => RunSt.push (st.act (.start (str j "u")))
-  | "step" => RunSt.push (st.act (.step (str j "u") (outcomeOf (str j "o")) none))
+  | "step" => RunSt.push (st.stepU (str j "u") (outcomeOf (str j "o")) (str j "e") (nat j "v"))
   | "run" => st.runU (str j "u")
   | _ => { st with steps := "unknown-op" :: st.steps }
 
